@@ -36,6 +36,28 @@ Theorem C02_drop_only_if_late : forall c id ts now s,
 Proof. exact not_late_buffered. Qed.
 Print Assumptions C02_drop_only_if_late.
 
+(* ALLOWEDLATENESS > 0: a late row that falls in an already-fired window still registered causes, inside
+   that very Add, a re-delivery with the same (start, end) whose contents are the previous contents
+   followed by the row *)
+Theorem C02_late_update : forall c id ts now s t,
+  0 < size c -> Inv c s -> init s = true ->
+  is_late ts (update_event_time (ooo c) now ts (w s)) = true ->
+  inwin c (slot s) ts = false -> (0 <? lateness c) = true ->
+  find (fun t => in_twin t ts) (trig s) = Some t ->
+  snd (add_core c id ts now s) =
+    [{| b_start := t_start t; b_end := t_end t; b_rows := t_snap t ++ [(id, ts)]; b_late := true |}].
+Proof. exact late_update_exact. Qed.
+Print Assumptions C02_late_update.
+
+(* REFUTED (recorded finding F8a): an event older than watermark - ALLOWEDLATENESS does change a result
+   when its window has not fired yet *)
+Theorem C02_beyond_lateness_inert_refuted :
+  exists c h id ts,
+    In (EvBatch {| b_start := 20000; b_end := 30000; b_rows := [(1, 20100); (2, 25000); (id, ts)]; b_late := false |})
+       (snd (run c st0 h)) /\ ts < 25000 - ooo c - lateness c.
+Proof. exact beyond_lateness_inert_refuted. Qed.
+Print Assumptions C02_beyond_lateness_inert_refuted.
+
 (* the same discipline for the sliding window ... *)
 Theorem C02_no_early_fire_sliding : forall c h s tr,
   srun c sst0 h = (s, tr) ->
